@@ -246,3 +246,66 @@ def ty_of(body, operand):
             t = t[4:]
     return t
 
+
+
+def locals_of_type(body, pred):
+    """User-bound locals (let, pattern, parameter - not compiler temporaries) whose type, references stripped, satisfies `pred` (a substring or a predicate)."""
+    out = []
+    for l in sorted(body.user_locals):
+        t = body.locals[l] if l < len(body.locals) else ""
+        while t.startswith("&"):
+            t = t[1:].lstrip()
+            if t.startswith("mut "):
+                t = t[4:]
+        if (pred in t) if isinstance(pred, str) else pred(t):
+            out.append(l)
+    return out
+
+
+def role_by_type(body, roles, name, pred, pick=None):
+    """roles[the one user local of that type] = name; several candidates -> `pick` chooses, else no role is assigned (the rule then reports the anchor)."""
+    c = locals_of_type(body, pred)
+    if len(c) > 1 and pick:
+        c = [l for l in c if pick(l)]
+    if len(c) == 1:
+        roles[c[0]] = name
+    return roles
+
+
+def const_bool_locals(b):
+    """bool locals that are only ever assigned the literals true / false: a task's own bookkeeping flags (whatever they are called)"""
+    out = {}
+    for loc, ds in b.defs.items():
+        if loc < len(b.locals) and b.locals[loc] == "bool" and ds and all(d[0] == "assign" and d[3][0] == "use" and d[3][1][0] == "k" and d[3][1][1].get("b") in (True, False) for d in ds):
+            if {d[3][1][1].get("b") for d in ds} == {True, False}:
+                out[loc] = ds
+    return out
+
+
+def guard_flags(b, block, label="true"):
+    """the constant-only bool flags tested (with the given outcome) on the way to `block`"""
+    from mirlib import dom_guards, op_place
+    flags = const_bool_locals(b)
+    out = []
+    for d, l, sb in dom_guards(b, block):
+        if l != label:
+            continue
+        pl = op_place(b.term(sb).get("discr"))
+        if pl is None:
+            continue
+        root = b.copy_root(pl)
+        if root in flags and root not in out:
+            out.append(root)
+    return out
+
+
+def assign_roles_by_type(body, table):
+    """Every user-bound local whose type satisfies a predicate of `table` ([(name, pred)]) is given that canonical name (several locals may share one:
+    `a State-typed variable`). The source's own names are dropped for them, so rules written against these names survive any renaming."""
+    roles = {}
+    for name, pred in table:
+        for l in locals_of_type(body, pred):
+            roles.setdefault(l, name)
+    if roles:
+        body.assign_roles(roles)
+    return roles
